@@ -518,6 +518,8 @@ func runC16(r *core.Run) {
 			}
 			return core.Outcome{Class: "clean", Nontrivial: true, Evals: 91 * 8}
 		})
+
+	c16Schedules(r)
 }
 
 func tailLines(s string, n int) string {
